@@ -206,6 +206,18 @@ pub fn reportable(kind: Kind, pats: &[Vec<u8>]) -> Vec<usize> {
         .collect()
 }
 
+/// Bookkeeping for the confirmation of structural differences through the public API.
+#[derive(Default)]
+pub struct Budget {
+    pub tried: u32,
+    pub confirmed: u32,
+}
+impl Budget {
+    fn allow(&self) -> bool {
+        self.confirmed < 2 && self.tried < 400
+    }
+}
+
 pub struct Explored {
     pub refac: RefAc,
     /// reference node -> state index
@@ -246,6 +258,275 @@ fn fault_violation(
     acc.violate(prop, "table", what, c);
 }
 
+/// Reference-free ranking analysis (C13): works on the automaton's own graph, so it also covers
+/// automata whose structure differs from the reference.
+///  * every state in the closure of the root under child edges (all labels) and fail links has a
+///    fail chain that reaches the root (or the dead state, leftmost kinds) in at most `len` steps
+///    and a finite output chain  =>  every search terminates;
+///  * standard kind: phi(s) = max over all paths root->s of sum(fail hops - 1) stays <= 0, computed
+///    by a longest-path worklist over the real transition graph  <=>  no haystack of n labels makes
+///    the scan follow more than n fail links (<= 2n transitions). Exact for this automaton.
+/// Every (state,label) step is also taken on the crate's own transition function, whose hop counter
+/// must agree with the table.
+pub fn check_ranking(prop: &str, b: &Built, pats: &[Vec<u8>], origin: &Value, acc: &mut Acc) -> bool {
+    let is_char = b.cfg.variant == Variant::Char;
+    let leftmost = b.cfg.kind != Kind::Std;
+    let raw = b.auto.raw();
+    let it = Interp { raw: &raw, is_char };
+    let len = raw.states.len();
+    if len == 0 {
+        return false;
+    }
+    let (mapped, _) = label_set(&raw, is_char);
+    // closure under child and fail
+    let mut idx_of: Vec<u32> = vec![u32::MAX; len];
+    let mut order: Vec<u32> = vec![0];
+    let mut via: Vec<(u32, u32)> = vec![(u32::MAX, 0)]; // (predecessor position in `order`, label) for child edges
+    idx_of[0] = 0;
+    let mut qi = 0;
+    while qi < order.len() {
+        let s = order[qi];
+        for &c in &mapped {
+            let code = it.code(c).unwrap();
+            match it.child(s, code) {
+                Ok(Some(t)) => {
+                    if idx_of[t as usize] == u32::MAX {
+                        idx_of[t as usize] = order.len() as u32;
+                        order.push(t);
+                        via.push((qi as u32, c));
+                    }
+                }
+                Ok(None) => {}
+                Err(f) => {
+                    fault_violation(prop, &f, origin, b, &[], acc);
+                    return false;
+                }
+            }
+        }
+        let f = raw.states[s as usize].fail;
+        if s != ROOT && !(leftmost && f == DEAD) {
+            if f as usize >= len {
+                fault_violation(prop, &Fault::Oob { what: "fail index", state: s, index: u64::from(f) }, origin, b, &[], acc);
+                return false;
+            }
+            if idx_of[f as usize] == u32::MAX {
+                idx_of[f as usize] = order.len() as u32;
+                order.push(f);
+                via.push((u32::MAX, 0));
+            }
+        }
+        qi += 1;
+    }
+    let path_to = |pos: usize| -> Vec<u32> {
+        let mut p = Vec::new();
+        let mut cur = pos;
+        let mut guard = 0;
+        while via[cur].0 != u32::MAX && guard < len + 1 {
+            p.push(via[cur].1);
+            cur = via[cur].0 as usize;
+            guard += 1;
+        }
+        p.reverse();
+        p
+    };
+    // termination of the fail chain and the output chain of every state
+    for (pos, &s) in order.iter().enumerate() {
+        let mut cur = s;
+        let mut steps = 0usize;
+        while cur != ROOT {
+            let f = raw.states[cur as usize].fail;
+            if leftmost && f == DEAD {
+                break;
+            }
+            if f as usize >= len {
+                break; // reported by the closure above / C07
+            }
+            if !leftmost && f == DEAD {
+                // the dead state of a standard automaton: byte-wise it fails to the root, char-wise
+                // to itself (endless loop)
+                if raw.states[DEAD as usize].fail == DEAD {
+                    steps = len + 1;
+                    break;
+                }
+            }
+            cur = f;
+            steps += 1;
+            if steps > len {
+                break;
+            }
+        }
+        if steps > len {
+            acc.violate("C13", "table",
+                format!("the fail chain of state {s} never reaches the root: the transition loop does not terminate"),
+                e2::with(origin.clone(), "haystack", json!(hex(&labels_to_bytes(is_char, &path_to(pos))))));
+            return false;
+        }
+        if let Err(fl) = it.chain(s, false) {
+            match fl {
+                Fault::Loop { .. } => {
+                    acc.violate("C13", "table",
+                        format!("the output chain of state {s} is cyclic: the overlapping iterator never finishes"),
+                        e2::with(origin.clone(), "haystack", json!(hex(&labels_to_bytes(is_char, &path_to(pos))))));
+                }
+                f => fault_violation(prop, &f, origin, b, &[], acc),
+            }
+            return false;
+        }
+    }
+    // transitions (+ conformance of the real loop and its hop counter)
+    let nl = mapped.len();
+    let mut next_t: Vec<u32> = vec![0; order.len() * nl];
+    let mut hops_t: Vec<u32> = vec![0; order.len() * nl];
+    for (pos, &s) in order.iter().enumerate() {
+        for (ci, &c) in mapped.iter().enumerate() {
+            let (n, h) = match it.next(s, it.code(c), leftmost) {
+                Ok(x) => x,
+                Err(fl) => {
+                    fault_violation(prop, &fl, origin, b, &[], acc);
+                    return false;
+                }
+            };
+            acc.transitions += 1;
+            let h0 = daachorse::verif::fail_hops();
+            let real = b.auto.next(s, c, leftmost);
+            let rh = daachorse::verif::fail_hops() - h0;
+            acc.traces += 1;
+            if real != n {
+                acc.violate(prop, "table", format!("interpreter and the crate's transition function disagree at state {s} label {c:#x}: {n} vs {real}"), origin.clone());
+                return false;
+            }
+            if rh != u64::from(h) {
+                acc.violate("C13", "table",
+                    format!("the transition loop followed {rh} fail links at state {s} label {c:#x}; the table requires {h}"),
+                    e2::with(origin.clone(), "haystack", json!(hex(&labels_to_bytes(is_char, &path_to(pos))))));
+                return false;
+            }
+            next_t[pos * nl + ci] = n;
+            hops_t[pos * nl + ci] = h;
+        }
+        acc.states += 1;
+        util::tick_progress();
+    }
+    if leftmost {
+        return true;
+    }
+    // longest-path worklist: phi(s) <= 0 for every state
+    let mut phi: Vec<i64> = vec![i64::MIN; order.len()];
+    let mut pred: Vec<(u32, u32)> = vec![(u32::MAX, 0); order.len()];
+    phi[0] = 0;
+    let mut work: std::collections::VecDeque<u32> = std::collections::VecDeque::new();
+    let mut queued = vec![false; order.len()];
+    work.push_back(0);
+    queued[0] = true;
+    let mut relaxations = 0u64;
+    while let Some(pos) = work.pop_front() {
+        let pos = pos as usize;
+        queued[pos] = false;
+        for ci in 0..nl {
+            let n = next_t[pos * nl + ci];
+            let np = idx_of[n as usize];
+            if np == u32::MAX {
+                continue; // cannot happen: targets are in the closure
+            }
+            let np = np as usize;
+            let v = phi[pos] + i64::from(hops_t[pos * nl + ci]) - 1;
+            if v > phi[np] {
+                relaxations += 1;
+                phi[np] = v;
+                pred[np] = (pos as u32, mapped[ci]);
+                if v > 0 {
+                    // witness haystack: follow the predecessor links
+                    let mut labels = Vec::new();
+                    let mut cur = np;
+                    let mut guard = 0;
+                    while pred[cur].0 != u32::MAX && guard < 4 * order.len() + 4 {
+                        labels.push(pred[cur].1);
+                        cur = pred[cur].0 as usize;
+                        guard += 1;
+                        if cur == 0 && phi[0] == 0 && pred[0].0 == u32::MAX {
+                            break;
+                        }
+                    }
+                    labels.reverse();
+                    // a shortest witness, by dynamic programming over the path length (bounded)
+                    {
+                        let ns = order.len();
+                        let cap = 200usize;
+                        let mut best: Vec<i64> = vec![i64::MIN; ns];
+                        best[0] = 0;
+                        let mut preds: Vec<Vec<(u32, u32)>> = Vec::new();
+                        'dp: for _l in 0..cap {
+                            let mut nb: Vec<i64> = vec![i64::MIN; ns];
+                            let mut pl: Vec<(u32, u32)> = vec![(u32::MAX, 0); ns];
+                            for p in 0..ns {
+                                if best[p] == i64::MIN {
+                                    continue;
+                                }
+                                for ci in 0..nl {
+                                    let q = idx_of[next_t[p * nl + ci] as usize] as usize;
+                                    let v = best[p] + i64::from(hops_t[p * nl + ci]) - 1;
+                                    if v > nb[q] {
+                                        nb[q] = v;
+                                        pl[q] = (p as u32, mapped[ci]);
+                                    }
+                                }
+                            }
+                            preds.push(pl);
+                            best = nb;
+                            if let Some(q) = (0..ns).find(|&q| best[q] > 0) {
+                                let mut l2 = Vec::new();
+                                let mut cur = q;
+                                for layer in preds.iter().rev() {
+                                    l2.push(layer[cur].1);
+                                    cur = layer[cur].0 as usize;
+                                }
+                                l2.reverse();
+                                labels = l2;
+                                break 'dp;
+                            }
+                        }
+                    }
+                    let hay = labels_to_bytes(is_char, &labels);
+                    // measured on the real iterator as well
+                    let h0 = daachorse::verif::fail_hops();
+                    let ran = std::panic::catch_unwind(std::panic::AssertUnwindSafe(|| b.auto.run(crate::auto::Method::NoSuf, &hay)));
+                    let measured = if ran.is_ok() {
+                        format!("{}", daachorse::verif::fail_hops() - h0)
+                    } else {
+                        let _ = util::take_last_panic();
+                        "the search panicked".to_string()
+                    };
+                    let mut c = e2::case_json(&b.cfg, pats, if b.explicit_vals { Some(&b.vals) } else { None });
+                    if let (Some(o), Some(src)) = (c.as_object_mut(), origin.as_object()) {
+                        for k in ["family", "level", "seed"] {
+                            if let Some(x) = src.get(k) {
+                                o.insert(k.into(), x.clone());
+                            }
+                        }
+                        if src.contains_key("family") {
+                            o.remove("patterns");
+                        }
+                        o.insert("haystack".into(), json!(hex(&hay)));
+                        o.insert("method".into(), json!("find_overlapping_no_suffix_iter"));
+                        o.insert("check".into(), json!("hops"));
+                    }
+                    acc.violate("C13", "table",
+                        format!("a haystack of {} labels makes the standard scan follow more than {} fail links (measured on the real iterator: {}), i.e. more than 2n transitions; haystack {:?}",
+                            labels.len(), labels.len(), measured, e2::show(&hay)),
+                        c);
+                    return false;
+                }
+                if !queued[np] {
+                    queued[np] = true;
+                    work.push_back(np as u32);
+                }
+            }
+        }
+    }
+    acc.count("phi_relaxations", relaxations);
+    true
+}
+
 /// Explores one automaton. `origin` describes how to rebuild it (cfg + patterns or family).
 /// Returns the pairing with the reference on success of the structural part.
 pub fn check_table(
@@ -256,6 +537,9 @@ pub fn check_table(
     acc: &mut Acc,
 ) -> Option<Explored> {
     let want = Want::for_prop(prop);
+    if want.ranking && !check_ranking(prop, b, pats, origin, acc) {
+        return None;
+    }
     let is_char = b.cfg.variant == Variant::Char;
     let kind = b.cfg.kind;
     let leftmost = kind != Kind::Std;
@@ -303,7 +587,7 @@ pub fn check_table(
     let mut queue: Vec<(u32, usize)> = vec![(0, 0)];
     let mut qi = 0;
     let mut ok = true;
-    let mut structural_reports = 0;
+    let mut budget = Budget::default();
     while qi < queue.len() {
         let (s, r) = queue[qi];
         qi += 1;
@@ -339,11 +623,10 @@ pub fn check_table(
                     if node_of[t as usize] != NONE || state_of[rt] != u32::MAX {
                         // a slot reached twice: the child relation is not a tree
                         ok = false;
-                        if (want.structure || want.ranking) && structural_reports < 2 {
-                            structural_reports += 1;
+                        if (want.structure || want.ranking) && budget.allow() {
                             let mut path = refac.string(r);
                             path.push(c);
-                            structural(prop, b, pats, origin, &refac, &labels_to_bytes(is_char, &path),
+                            structural(prop, b, pats, origin, &refac, &mut budget, &labels_to_bytes(is_char, &path),
                                 format!("state {t} is the child of two different (state, label) pairs"), acc);
                         }
                         continue;
@@ -354,21 +637,19 @@ pub fn check_table(
                 }
                 (Some(t), None) => {
                     ok = false;
-                    if want.structure && structural_reports < 2 {
-                        structural_reports += 1;
+                    if want.structure && budget.allow() {
                         let mut path = refac.string(r);
                         path.push(c);
-                        structural(prop, b, pats, origin, &refac, &labels_to_bytes(is_char, &path),
+                        structural(prop, b, pats, origin, &refac, &mut budget, &labels_to_bytes(is_char, &path),
                             format!("phantom transition: state {s} (after {:?}) accepts label {c:#x} -> {t} but no pattern continues that way", e2::show(&labels_to_bytes(is_char, &refac.string(r)))), acc);
                     }
                 }
                 (None, Some(_)) => {
                     ok = false;
-                    if want.structure && structural_reports < 2 {
-                        structural_reports += 1;
+                    if want.structure && budget.allow() {
                         let mut path = refac.string(r);
                         path.push(c);
-                        structural(prop, b, pats, origin, &refac, &labels_to_bytes(is_char, &path),
+                        structural(prop, b, pats, origin, &refac, &mut budget, &labels_to_bytes(is_char, &path),
                             format!("missing transition: state {s} has no child on label {c:#x} although a pattern continues that way"), acc);
                     }
                 }
@@ -382,7 +663,7 @@ pub fn check_table(
             if real != ROOT && want.structure {
                 let mut path = refac.string(r);
                 path.push(c);
-                structural(prop, b, pats, origin, &refac, &labels_to_bytes(is_char, &path),
+                structural(prop, b, pats, origin, &refac, &mut budget, &labels_to_bytes(is_char, &path),
                     format!("unmapped character {c:#x} moves state {s} to {real} instead of the root"), acc);
                 ok = false;
             }
@@ -491,14 +772,14 @@ pub fn check_table(
                     .iter()
                     .map(|&i| (b.vals[rep[i]], plen[i] as u32))
                     .collect();
-                if chain != exp {
-                    structural(prop, b, pats, origin, &refac, &labels_to_bytes(is_char, &refac.string(r)),
+                if chain != exp && budget.allow() {
+                    structural(prop, b, pats, origin, &refac, &mut budget, &labels_to_bytes(is_char, &refac.string(r)),
                         format!("output chain of state {s} is {chain:?} (value,len), the patterns ending here are {exp:?}"), acc);
                 }
             } else if let Some(i) = refac.nodes[r].term {
                 let exp = (b.vals[rep[i]], plen[i] as u32);
-                if chain.first() != Some(&exp) {
-                    structural(prop, b, pats, origin, &refac, &labels_to_bytes(is_char, &refac.string(r)),
+                if chain.first() != Some(&exp) && budget.allow() {
+                    structural(prop, b, pats, origin, &refac, &mut budget, &labels_to_bytes(is_char, &refac.string(r)),
                         format!("state {s} ends pattern #{} but the head of its output chain is {:?}, not {exp:?}", rep[i], chain.first()), acc);
                 }
             }
@@ -533,10 +814,10 @@ pub fn check_table(
             }
             if !leftmost {
                 let rn = refac.delta(r, c);
-                if want.structure && node_of[n as usize] != rn {
+                if want.structure && node_of[n as usize] != rn && budget.allow() {
                     let mut path = refac.string(r);
                     path.push(c);
-                    structural(prop, b, pats, origin, &refac, &labels_to_bytes(is_char, &path),
+                    structural(prop, b, pats, origin, &refac, &mut budget, &labels_to_bytes(is_char, &path),
                         format!("transition of state {s} on label {c:#x} leads to the state of {:?}, the textbook automaton goes to {:?}",
                             e2::show(&labels_to_bytes(is_char, &refac.string(node_of[n as usize]))),
                             e2::show(&labels_to_bytes(is_char, &refac.string(rn)))), acc);
@@ -640,10 +921,12 @@ fn structural(
     pats: &[Vec<u8>],
     origin: &Value,
     refac: &RefAc,
+    budget: &mut Budget,
     path: &[u8],
     what: String,
     acc: &mut Acc,
 ) {
+    budget.tried += 1;
     let is_char = b.cfg.variant == Variant::Char;
     // tails: nothing, every label of the patterns (and 00/01/ff), pairs of them, and the way down
     // to the nearest pattern end below every depth-1..2 node
@@ -672,6 +955,40 @@ fn structural(
             let mut t = a.clone();
             t.extend_from_slice(c);
             tails.push(t);
+        }
+    }
+    // continuation to the nearest pattern end below the state the *reference* is in after `path`
+    // (and below each of its fail ancestors): the text a correct automaton still has to recognise
+    {
+        let lab = oracle::labels_of(is_char, path);
+        let mut node = 0usize;
+        for &(c, _) in &lab {
+            node = refac.delta(node, c);
+        }
+        let mut cur = node;
+        let mut guard = 0;
+        loop {
+            // BFS down the trie from cur to the nearest terminal
+            let mut q: Vec<(usize, Vec<u32>)> = vec![(cur, vec![])];
+            let mut qi = 0;
+            while qi < q.len() && qi < 4000 {
+                let (n, t) = q[qi].clone();
+                qi += 1;
+                if refac.nodes[n].term.is_some() && !t.is_empty() {
+                    tails.push(labels_to_bytes(is_char, &t));
+                    break;
+                }
+                for (&c, &ch) in &refac.nodes[n].edges {
+                    let mut t2 = t.clone();
+                    t2.push(c);
+                    q.push((ch, t2));
+                }
+            }
+            if cur == 0 || guard > 8 {
+                break;
+            }
+            cur = refac.nodes[cur].fail;
+            guard += 1;
         }
     }
     // continuation to pattern ends: every pattern suffix of length <= 4 labels
@@ -708,12 +1025,15 @@ fn structural(
                 let _ = bb_origin;
                 e2::report_mismatch(prop, "enum", b, pats, &hay, m, &e, &g,
                     &format!("{note} [table exploration: {what}]"), acc);
+                budget.confirmed += 1;
                 return;
             }
         }
     }
     acc.count("unconfirmed_table_differences", 1);
-    acc.notes.push(format!(
-        "table differs from the reference but no search through the public API showed it: {what}"
-    ));
+    if acc.notes.len() < 5 {
+        acc.notes.push(format!(
+            "table differs from the reference but no search through the public API showed it: {what}"
+        ));
+    }
 }
